@@ -124,6 +124,7 @@ func parseContractFile(path, pkgPath string) (*ContractFile, error) {
 		cur = nil
 		last = nil
 	}
+	var macros []*specMacro
 	lines := strings.Split(string(data), "\n")
 	for ln, raw := range lines {
 		line := strings.TrimSpace(raw)
@@ -137,6 +138,18 @@ func parseContractFile(path, pkgPath string) (*ContractFile, error) {
 		text := strings.TrimSpace(body)
 		if text == "" {
 			continue
+		}
+		if strings.HasPrefix(text, "macro ") {
+			// macro NAME(p, q) := body -- textual abbreviation, file scope, expanded in every later //@ line
+			m, err := parseMacro(strings.TrimSpace(strings.TrimPrefix(text, "macro ")))
+			if err != nil {
+				return nil, fmt.Errorf("%s:%d: %v", path, ln+1, err)
+			}
+			macros = append(macros, m)
+			continue
+		}
+		if len(macros) > 0 {
+			text = expandMacros(text, macros)
 		}
 		switch {
 		case strings.HasPrefix(text, "package "):
@@ -659,4 +672,116 @@ func loadContracts(repo, specDir string) (map[string]*Contract, []GhostDecl, []*
 		c.Clauses = cls
 	}
 	return out, ghosts, files, nil
+}
+
+// specMacro is a textual abbreviation usable in the contract clauses of one file.
+type specMacro struct {
+	Name   string
+	Params []string
+	Body   string
+}
+
+func parseMacro(s string) (*specMacro, error) {
+	i := strings.Index(s, ":=")
+	lp := strings.Index(s, "(")
+	rp := strings.Index(s, ")")
+	if i < 0 || lp < 0 || rp < lp || rp > i {
+		return nil, fmt.Errorf("macro NAME(params) := body")
+	}
+	m := &specMacro{Name: strings.TrimSpace(s[:lp]), Body: strings.TrimSpace(s[i+2:])}
+	for _, p := range strings.Split(s[lp+1:rp], ",") {
+		if p = strings.TrimSpace(p); p != "" {
+			m.Params = append(m.Params, p)
+		}
+	}
+	return m, nil
+}
+
+func isIdentByte(c byte) bool {
+	return c == '_' || c == '.' || c == '#' || (c >= '0' && c <= '9') || (c >= 'a' && c <= 'z') || (c >= 'A' && c <= 'Z')
+}
+
+// substIdent replaces whole-identifier occurrences of name in s (string literals are left alone).
+func substIdent(s, name, repl string) string {
+	var b strings.Builder
+	inStr := false
+	for i := 0; i < len(s); {
+		if s[i] == '"' {
+			inStr = !inStr
+		}
+		if !inStr && strings.HasPrefix(s[i:], name) && (i == 0 || !isIdentByte(s[i-1])) && (i+len(name) == len(s) || s[i+len(name)] == '.' || !isIdentByte(s[i+len(name)])) {
+			b.WriteString(repl)
+			i += len(name)
+			continue
+		}
+		b.WriteByte(s[i])
+		i++
+	}
+	return b.String()
+}
+
+func expandMacros(text string, macros []*specMacro) string {
+	for round := 0; round < 12; round++ {
+		changed := false
+		for _, m := range macros {
+			for from := 0; ; {
+				k := strings.Index(text[from:], m.Name+"(")
+				if k < 0 {
+					break
+				}
+				k += from
+				if k > 0 && isIdentByte(text[k-1]) {
+					from = k + 1
+					continue
+				}
+				// balanced argument list
+				start := k + len(m.Name) + 1
+				depth, end := 1, -1
+				var args []string
+				argStart := start
+				inStr := false
+				for j := start; j < len(text); j++ {
+					c := text[j]
+					if c == '"' {
+						inStr = !inStr
+					}
+					if inStr {
+						continue
+					}
+					if c == '(' || c == '[' {
+						depth++
+					} else if c == ')' || c == ']' {
+						depth--
+						if depth == 0 {
+							args = append(args, strings.TrimSpace(text[argStart:j]))
+							end = j
+							break
+						}
+					} else if c == ',' && depth == 1 {
+						args = append(args, strings.TrimSpace(text[argStart:j]))
+						argStart = j + 1
+					}
+				}
+				if end < 0 || len(args) != len(m.Params) && !(len(m.Params) == 0 && len(args) == 1 && args[0] == "") {
+					from = k + 1
+					continue
+				}
+				body := m.Body
+				// two-step substitution so that an argument mentioning another parameter name is not rewritten
+				for i, p := range m.Params {
+					body = substIdent(body, p, fmt.Sprintf("\x00%d\x00", i))
+				}
+				for i := range m.Params {
+					body = strings.Replace(body, fmt.Sprintf("\x00%d\x00", i), "("+args[i]+")", -1)
+				}
+				text = text[:k] + "(" + body + ")" + text[end+1:]
+				from = k + 1
+				changed = true
+			}
+		}
+		if !changed {
+			break
+		}
+	}
+	return text
 }
